@@ -224,16 +224,16 @@ Qed.
 
 (* CountTicks(l) / TicksAtLevel(l) on an ordered domain.  With c the number of multiples of the level's
    spacing in the widened domain: CountTicks = c exactly up to 10^6 ticks and within 2 + 1e-9 c of
-   min(c, maxInt) beyond (the count is formed in float64 and saturated at maxInt); TicksAtLevel is
-   compared (status 0, within tolerance of the list, as many ticks as counted) whenever c <= 10^6;
-   status 3 = the harness did not call TicksAtLevel: only where c > 10^4 *)
+   min(c, maxInt) beyond (the count is formed in float64 and saturated at maxInt); TicksAtLevel has
+   status 0 and exactly c ticks, each within tolerance of the list - or status 3 (the harness did not call
+   TicksAtLevel) and no ticks, only where c > 1000 *)
 Definition lin_level_spec (tolv : Q -> Q) (base eb : Z) (mn mx : Q) (lv : levobs) : Prop :=
   exists L, lin_level_list base eb mn mx (lv_level lv) L /\
     let c := Z.of_nat (length L) in
     ((c <= 1000000)%Z -> lv_count lv = c) /\
     ((1000000 < c)%Z -> (Z.abs (lv_count lv - Z.min c MAXINT) <= 2 + c / 1000000000)%Z) /\
-    ((lv_st lv = 0%Z /\ (c <= 1000000)%Z /\ obs_close tolv L (lv_ticks lv) /\ lv_count lv = Z.of_nat (length (lv_ticks lv)))
-     \/ (lv_st lv = 3%Z /\ (10000 < c)%Z /\ lv_ticks lv = [])).
+    ((lv_st lv = 0%Z /\ obs_close tolv L (lv_ticks lv) /\ Z.of_nat (length (lv_ticks lv)) = c)
+     \/ (lv_st lv = 3%Z /\ (1000 < c)%Z /\ lv_ticks lv = [])).
 Lemma count_ok_sound c obs : count_ok c obs = true ->
   ((c <= 1000000)%Z -> obs = c) /\ ((1000000 < c)%Z -> (Z.abs (obs - Z.min c MAXINT) <= 2 + c / 1000000000)%Z).
 Proof.
@@ -253,10 +253,9 @@ Proof.
   destruct (lv_st lv =? 3)%Z eqn:S3.
   - right. apply Z.eqb_eq in S3. apply andb_prop in H. destruct H as [H1 H2]. apply Z.ltb_lt in H1.
     destruct (lv_ticks lv); [auto | discriminate].
-  - left. apply andb_prop in H. destruct H as [H H3]. apply andb_prop in H. destruct H as [H1 H2].
-    apply Z.eqb_eq in H1. apply Z.leb_le in H2. apply close_list_sound in H3.
-    split; [exact H1|]. split; [exact H2|]. split; [exact H3|].
-    rewrite (proj1 Hc H2). f_equal. symmetry. eapply obs_close_length. exact H3.
+  - left. apply andb_prop in H. destruct H as [H1 H3]. apply Z.eqb_eq in H1.
+    destruct (_ =? _)%Z eqn:El in H3; [|discriminate]. apply Z.eqb_eq in El. apply close_list_sound in H3.
+    split; [exact H1|]. split; [exact H3 | now symmetry].
 Qed.
 
 (* ---------- Nice ---------- *)
